@@ -1,0 +1,19 @@
+//go:build verif
+
+package rsync
+
+// verifC20Receiver adapts two callbacks to the Receiver interface, whose
+// finalize method is unexported.
+type verifC20Receiver struct {
+	receive func(*Transmission) error
+	fin     func() error
+}
+
+func (r *verifC20Receiver) Receive(t *Transmission) error { return r.receive(t) }
+
+func (r *verifC20Receiver) finalize() error { return r.fin() }
+
+// VerifC20NewReceiver creates a Receiver from callbacks.
+func VerifC20NewReceiver(receive func(*Transmission) error, finalize func() error) Receiver {
+	return &verifC20Receiver{receive: receive, fin: finalize}
+}
